@@ -16,7 +16,7 @@ ASSUMPTIONS = [
 
 def tasks(tier):
     return [D.GenTask(), D.EncodeTask("mem"), D.EncodeTask("mem-empty"), D.EncodeTask("none"), D.EncodeTask("file"),
-            D.DecodeStepTask()]
+            D.DecodeStepTask(), D.SendMsgTask("C15/")]
 
 
 def replay(rec):
